@@ -326,7 +326,7 @@ def run(ck, facts):
     # macro source: destroy fn generated with Box<T> and empty body, named by dtor_abi_name
     g = facts.macro.fn("gen_bridge")
     found = False
-    for n in C.walk(C.fn_body(g)):
+    for n in C.walk_inl(facts.macro, C.fn_body(g), max_nodes=1500):
         if n.get("k") == "macro" and n.get("name") in ("parse_quote", "quote"):
             src = n.get("src", "")
             if "Box<" in src and "destroy" in src:
